@@ -56,7 +56,7 @@ FAMILIES = {
         },
         "simulate": {"quick": [sim("SimLife", 60, 45, isolate=True)], "thorough": [sim("SimLife", 800, 55, isolate=True)]},
         "scenarios": [scen("ReplayLife", "life.ndjson", isolate=True), scen("ReplayLifeGaps", "life_gaps.ndjson", isolate=True, gaps=True),
-                      scen("WitReplayLife", "wit_life.ndjson", isolate=True)],
+                      scen("WitReplayLife", "wit_life.ndjson", isolate=True), scen("WitReplayLife1", "wit_life1.ndjson", isolate=True)],
     },
     # Core.tla, start-up faults: failing load / seqno / failover-log queries, failing stream open, checkpoint ahead
     "fault": {
@@ -85,6 +85,7 @@ PROPS = {
     "C09": {"custom": "funcheck"},
     "C19": {"custom": "funcheck"},
     "C18": {"custom": "funcheck"},
+    "C20": {"custom": "funcheck"},
     "C02": {"families": ["mode", "fault", "data"]},
     "C01": {"families": ["data", "gen"]},
     "C03": {"families": ["gen", "life"]},
